@@ -540,6 +540,30 @@ impl HandshakeState {
     }
 }
 
+#[cfg(feature = "verif-hooks")]
+impl HandshakeState {
+    /// Verification hook (read-only): a dump of the private handshake state, used by external
+    /// model-checking harnesses as a state de-duplication key only.
+    #[must_use]
+    pub fn verif_fingerprint(&self) -> crate::utils::VerifDump {
+        let mut out = crate::utils::VerifDump::new();
+        self.symmetricstate.verif_dump(&mut out);
+        out.push(u8::from(self.my_turn));
+        out.push(u8::try_from(self.pattern_position).unwrap_or(u8::MAX));
+        for key in [&self.re, &self.rs] {
+            out.push(u8::from(key.is_on()));
+            out.extend_from_slice(&key[..]);
+        }
+        out.push(u8::from(self.e.is_on()));
+        out.extend_from_slice(&self.cipherstates.0.nonce().to_le_bytes());
+        out.extend_from_slice(&self.cipherstates.1.nonce().to_le_bytes());
+        for psk in &self.psks {
+            out.push(u8::from(psk.is_some()));
+        }
+        out
+    }
+}
+
 impl fmt::Debug for HandshakeState {
     fn fmt(&self, fmt: &mut fmt::Formatter<'_>) -> fmt::Result {
         fmt.debug_struct("HandshakeState").finish()
